@@ -10,7 +10,7 @@ import (
 
 func init() {
 	register(&Rule{ID: "TAB-10", Title: "commit CRC region: every extension of the pending buffer is folded into the rolling CRC over exactly those bytes; the commit frame carries the CRC as it stood; the CRC restarts only after fsync",
-		Props: []string{"C09", "C02"}, Floor: 4, Run: runTAB10})
+		Props: []string{"C09", "C02"}, Floor: 3, Run: runTAB10})
 }
 
 func runTAB10(p *Prog, r *RuleRun) {
@@ -84,7 +84,7 @@ func runTAB10(p *Prog, r *RuleRun) {
 			}
 		}
 	}
-	if nExt < 2 {
+	if nExt < 1 {
 		r.Unknown("extensions", "?", fmt.Sprintf("only %d in-place extensions of the pending buffer found", nExt))
 	}
 	// (b) the commit frame header carries the rolling CRC
